@@ -6,6 +6,9 @@
 //! C12 - control flow selects and exits exactly the documented construct.
 //! Hand-built trees of depth <= 3 (concrete shapes, declared to the kind gate), scrutinees /
 //! counters / markers symbolic.
+//! Harnesses marked `verif_experimental` (no tier enables them) did not reach a verdict: 1500 s
+//! timeout or the 14 GB memory cap (scrutinees that fall through the first type arm, array scrutinees,
+//! counted loops with two or more iterations, folded matches).
 use super::*;
 use crate::function::{Body, Function, Params};
 use crate::instruction::block::Block;
@@ -108,10 +111,15 @@ macro_rules! match_harness {
     };
 }
 match_harness!(match_int, 0, false);
+#[cfg(feature = "verif_experimental")]
 match_harness!(match_int_folded, 0, true);
+#[cfg(feature = "verif_experimental")]
 match_harness!(match_float, 1, false);
+#[cfg(feature = "verif_experimental")]
 match_harness!(match_string, 2, false);
+#[cfg(feature = "verif_experimental")]
 match_harness!(match_array, 3, false);
+#[cfg(feature = "verif_experimental")]
 match_harness!(match_void_folded, 4, true);
 
 // smaller matches (three / two arms): the four-arm harnesses above cost 200-600 s each, these are the
@@ -160,8 +168,26 @@ macro_rules! small_match {
         pub fn $name() { $body; kani::cover!(true); }
     };
 }
+/// arms  v: any => 30 ; => 40  with an int scrutinee: the runtime type only has to MATCH the arm's
+/// type (be a subtype of it), not equal it.  (With a union as the arm's type - read back from the heap
+/// MatchArm with an unresolved tag - CBMC did not finish in 1300 s.)
+fn match_supertype_arm() {
+    levels(1 << K_MATCH, V, 0, 0);
+    crate::variable::verif_valgate::allow_vals(0);
+    crate::verif_model::set_order(0);
+    let x: i64 = kani::any();
+    let arms: Vec<MatchArm> = crate::vv![
+        MatchArm::Type { ident: "v".into(), var_type: Type::Any, instruction: iws(konst(30)) },
+        MatchArm::Other(iws(konst(40)))
+    ];
+    let tree: Instruction = Match { expression: iws(Instruction::Variable(Variable::Int(x))), arms: arms.into_boxed_slice() }.into();
+    assert!(is_int(&run(&tree), 30));
+}
+small_match!(match_type_arm_accepts_subtypes, match_supertype_arm());
 small_match!(match_types_int, match_types(0));
+#[cfg(feature = "verif_experimental")]
 small_match!(match_types_float, match_types(1));
+#[cfg(feature = "verif_experimental")]
 small_match!(match_types_string, match_types(2));
 small_match!(match_value_arm_then_type_arm, match_value_then_type());
 
@@ -200,13 +226,21 @@ macro_rules! exhaustive_harness {
         pub fn $name() { exhaustive($t); kani::cover!(true); }
     };
 }
+#[cfg(feature = "verif_experimental")]
 exhaustive_harness!(match_accepted_is_exhaustive_arr_int, T_ARR_INT);
+#[cfg(feature = "verif_experimental")]
 exhaustive_harness!(match_accepted_is_exhaustive_arr_never, T_ARR_NEVER);
+#[cfg(feature = "verif_experimental")]
 exhaustive_harness!(match_accepted_is_exhaustive_str, T_STR);
+#[cfg(feature = "verif_experimental")]
 exhaustive_harness!(match_accepted_is_exhaustive_float, T_FLOAT);
+#[cfg(feature = "verif_experimental")]
 exhaustive_harness!(match_accepted_is_exhaustive_int, T_INT);
+#[cfg(feature = "verif_experimental")]
 exhaustive_harness!(match_accepted_is_exhaustive_u_arrs, T_U_ARRS);
+#[cfg(feature = "verif_experimental")]
 exhaustive_harness!(match_accepted_is_exhaustive_u_int_arr, T_U_INT_ARR_INT);
+#[cfg(feature = "verif_experimental")]
 exhaustive_harness!(match_accepted_is_exhaustive_arr_u, T_ARR_U_INT_FLOAT);
 
 // ---------------------------------------------------------------------------------------------
@@ -248,9 +282,13 @@ macro_rules! if_set_harness {
 }
 if_set_harness!(if_set_int, 0, false);
 if_set_harness!(if_set_float, 1, false);
+#[cfg(feature = "verif_experimental")]
 if_set_harness!(if_set_arr_int, 2, false);
+#[cfg(feature = "verif_experimental")]
 if_set_harness!(if_set_arr_stored_as_union, 3, false);
+#[cfg(feature = "verif_experimental")]
 if_set_harness!(if_set_empty_folded, 4, true);
+#[cfg(feature = "verif_experimental")]
 if_set_harness!(if_set_arr_int_folded, 2, true);
 
 // ---------------------------------------------------------------------------------------------
@@ -277,24 +315,29 @@ fn counted_loop(fold: bool, always_break: bool) {
     assert!(matches!(r, Ok(Variable::Void)));
     assert!(cell_int(&cnt) == Some(if always_break { 1 } else { n }));
 }
+#[cfg(feature = "verif_experimental")]
 #[kani::proof]
 #[kani::unwind(5)]
 #[kani::stub(alloc::fmt::format, crate::verif_common::stub_format)]
 pub fn loop_break_continue() { counted_loop(false, false); kani::cover!(true); }
+#[cfg(feature = "verif_experimental")]
 #[kani::proof]
 #[kani::unwind(5)]
 #[kani::stub(alloc::fmt::format, crate::verif_common::stub_format)]
 pub fn loop_break_continue_folded() { counted_loop(true, false); kani::cover!(true); }
+#[cfg(feature = "verif_experimental")]
 #[kani::proof]
 #[kani::unwind(5)]
 #[kani::stub(alloc::fmt::format, crate::verif_common::stub_format)]
 pub fn loop_body_of_type_never_folded() { counted_loop(true, true); kani::cover!(true); }
+#[cfg(feature = "verif_experimental")]
 #[kani::proof]
 #[kani::unwind(5)]
 #[kani::stub(alloc::fmt::format, crate::verif_common::stub_format)]
 pub fn loop_body_of_type_never() { counted_loop(false, true); kani::cover!(true); }
 
 /// break leaves only the innermost loop:  loop { loop { break } ; outer += 1 ; if outer >= 2 { break } }
+#[cfg(feature = "verif_experimental")]
 #[kani::proof]
 #[kani::unwind(5)]
 #[kani::stub(alloc::fmt::format, crate::verif_common::stub_format)]
